@@ -27,6 +27,35 @@ PROTOS = ["h2", "http/1.1", "spdy/3.1"]
 SNI = {"a": "a.example", "b": "b.example", "": ""}
 
 
+RETRY_ENV = dict(GODEBUG, VERIF_TLSNEG_WORKERS="1", VERIF_TLSNEG_TIMEOUT="90")
+MAX_RETRY = 8
+
+
+def _retry_hung(ctx, cmd, hcases, hung_ids, label):
+    """Cases whose watchdog expired in the parallel run are re-executed alone with a long watchdog
+    before they are judged (a loaded machine must not produce a verdict).  Returns {id: result}."""
+    if not hung_ids:
+        return {}
+    if len(hung_ids) > MAX_RETRY:
+        ctx.notes.append("%s: %d cases timed out in the parallel run; %d re-run alone" % (label, len(hung_ids), MAX_RETRY))
+    pick = sorted(hung_ids)[:MAX_RETRY]
+    res = ctx.harness("tlsneg", [cmd], cases=[c for c in hcases if c["id"] in pick], timeout=1500, env=RETRY_ENV)
+    _machinery(res, label + " (retry)")
+    out = {r["id"]: r for r in res if "id" in r}
+    still = [i for i in pick if _is_hung(out.get(i))]
+    if not still and len(hung_ids) > MAX_RETRY:
+        raise vlib.MachineryError("%s: %d connections timed out under load; the re-run ones completed - no verdict" % (label, len(hung_ids)))
+    return out
+
+
+def _is_hung(r):
+    if r is None:
+        return True
+    if "obs" in r:
+        return bool(r["obs"].get("hang"))
+    return any(isinstance(s, dict) and s.get("hang") for s in r.get("steps") or [])
+
+
 def _machinery(res, what):
     crash = [r for r in res if "_harness_exit" in r]
     summ = [r for r in res if r.get("summary")]
@@ -167,11 +196,14 @@ def run_neg(ctx, cases, label):
         raise vlib.MachineryError("no negotiation cases (%s)" % label)
     for i, c in enumerate(cases):
         c["id"] = i + 1
-    res = ctx.harness("tlsneg", ["neg"], cases=[neg_harness_case(c) for c in cases], timeout=1500, env=GODEBUG)
+    res = ctx.harness("tlsneg", ["neg"], cases=[neg_harness_case(c) for c in cases], timeout=2400, env=GODEBUG)
     _machinery(res, label)
     obs = {r["id"]: r["obs"] for r in res if "obs" in r}
     if len(obs) != len(cases):
         raise vlib.MachineryError("tlsneg neg: %d cases in, %d observations out" % (len(cases), len(obs)))
+    hcases = [neg_harness_case(c) for c in cases]
+    for i, r in _retry_hung(ctx, "neg", hcases, [i for i, o in obs.items() if o.get("hang")], label).items():
+        obs[i] = r["obs"]
     drift = {}
     for c in cases:
         o = obs[c["id"]]
@@ -200,7 +232,7 @@ def check_c41(ctx):
     ctx.cov["constants"]["NegotiateMC"] = {"Presets": mcp, "Tier": ctx.tier}
     ctx.tlc_must_pass("Tls", "NegotiateMC", "NegotiateMC.cfg", defines={"PRESETS": mcp, "TIER": ctx.tier},
                       timeout=3000, want_cases=False)
-    nsample = 3000 if q else 40000
+    nsample = 3000 if q else 30000
     inputs = neg_sample_inputs(ctx, nsample)
     gp = '{"gver", "gsuite", "galpn", "file"}' if q else '{"ver", "suite", "alpn", "file"}'
     ctx.cov["constants"]["NegotiateGen"] = {"Presets": gp, "Tier": "quick", "sampled": nsample}
@@ -382,11 +414,13 @@ def run_res(ctx, hists, label):
         raise vlib.MachineryError("no resumption histories (%s)" % label)
     for i, h in enumerate(hists):
         h["id"] = i + 1
-    res = ctx.harness("tlsneg", ["resume"], cases=[res_harness_case(h) for h in hists], timeout=1500, env=GODEBUG)
+    res = ctx.harness("tlsneg", ["resume"], cases=[res_harness_case(h) for h in hists], timeout=2400, env=GODEBUG)
     _machinery(res, label)
     obs = {r["id"]: r for r in res if "steps" in r}
     if len(obs) != len(hists):
         raise vlib.MachineryError("tlsneg resume: %d histories in, %d out" % (len(hists), len(obs)))
+    hcases = [res_harness_case(h) for h in hists]
+    obs.update(_retry_hung(ctx, "resume", hcases, [i for i, r in obs.items() if _is_hung(r)], label))
     drifts = {}
     nconn = 0
     for h in hists:
